@@ -21,11 +21,11 @@ def mapsOp (op : String) (a : Array Float) : Option (List Float) :=
   | "dipole" =>   -- L angle k1 e1 e2 tilt gap fint fintx E mc2
       let p : DipoleP Float := { L := g 0, angle := g 1, k1 := g 2, e1 := g 3, e2 := g 4, tilt := g 5,
                                   gap := g 6, fint := g 7, fintx := g 8 }
-      some (dipoleMap p (g 9) (g 10)).toList
+      some (dipoleMapCode p (g 9) (g 10)).toList
   | "rbend" =>
       let p : DipoleP Float := { L := g 0, angle := g 1, k1 := g 2, e1 := g 3, e2 := g 4, tilt := g 5,
                                   gap := g 6, fint := g 7, fintx := g 8 }
-      some (dipoleMap (rbendToDipole p) (g 9) (g 10)).toList
+      some (dipoleMapCode (rbendToDipole p) (g 9) (g 10)).toList
   | "solenoid" => some (solenoidMap (g 0) (g 1) (g 2) (g 3) (g 4) (g 5)).toList  -- L k mx my E mc2
   | "hcor" => some (hcorMap (g 0) (g 1) (g 2) (g 3)).toList
   | "vcor" => some (vcorMap (g 0) (g 1) (g 2) (g 3)).toList
